@@ -129,6 +129,56 @@ func (s *propSpec) opts() *Opts {
 	return o
 }
 
+// shrinkCase is a delta-debugging pass over the ops of a failing case. rapid's own shrinking gives
+// up when a failure does not reproduce on the first try, and placement among equally loaded
+// channels is not deterministic (the library builds the picker's list from a map); this pass
+// retries every candidate a few times and only needs "still fails for the same property".
+func shrinkCase(c *Case, prop string, run func(*Case) Result) (*Case, *Fail) {
+	best := *c
+	best.Ops = append([]Op{}, c.Ops...)
+	var bestFail *Fail
+	budget := 600
+	fails := func(cand *Case) *Fail {
+		for try := 0; try < 3 && budget > 0; try++ {
+			budget--
+			if r := run(cand); r.Fail != nil && r.Fail.Prop == prop {
+				return r.Fail
+			}
+		}
+		return nil
+	}
+	if bestFail = fails(&best); bestFail == nil {
+		return nil, nil
+	}
+	// drop everything after the failing step first
+	if bestFail.Step+1 < len(best.Ops) {
+		cand := best
+		cand.Ops = append([]Op{}, best.Ops[:bestFail.Step+1]...)
+		if f := fails(&cand); f != nil {
+			best, bestFail = cand, f
+		}
+	}
+	for size := len(best.Ops) / 2; size >= 1 && budget > 0; {
+		removed := false
+		for i := 0; i+size <= len(best.Ops) && budget > 0; {
+			cand := best
+			cand.Ops = append(append([]Op{}, best.Ops[:i]...), best.Ops[i+size:]...)
+			if f := fails(&cand); f != nil {
+				best, bestFail, removed = cand, f, true
+			} else {
+				i += size
+			}
+		}
+		if !removed || size > len(best.Ops) {
+			size /= 2
+		}
+		if size > len(best.Ops) {
+			size = len(best.Ops)
+		}
+	}
+	return &best, bestFail
+}
+
 func runPool(t *testing.T, s *propSpec) {
 	st := hx.For(s.prop)
 	CurProps.Store(s.prop)
@@ -167,13 +217,32 @@ func runPool(t *testing.T, s *propSpec) {
 		st.Label("corpus-replayed", 1)
 	}
 	prof := Profiles[s.profile]
+	shrunk := false
 	rapid.Check(t, func(rt *rapid.T) {
 		c := GenCase(rt, prof)
 		var r Result
 		rapid.SyncTest(rt, func(rt *rapid.T) { r = runCase(c, o) })
-		if f := finish(c, r); f != nil {
-			rt.Fatalf("%v", f)
+		if r.Fail != nil && shrunk {
+			rt.Fatalf("%v", r.Fail) // the minimal trace has been written already; let rapid finish its own shrinking
 		}
+		if r.Fail != nil {
+			shrunk = true
+			finish(c, r) // writes the unshrunk trace first
+			min, mf := shrinkCase(c, s.prop, func(cc *Case) Result {
+				var rr Result
+				rapid.SyncTest(rt, func(*rapid.T) { rr = runCase(cc, o) })
+				return rr
+			})
+			if min != nil {
+				min.Failure, min.Property = mf, s.prop
+				hx.WriteReplay(s.prop, min)
+				st.Label("shrunk-ops-from", len(c.Ops))
+				st.Label("shrunk-ops-to", len(min.Ops))
+				rt.Fatalf("%v (trace shrunk from %d to %d ops)", mf, len(c.Ops), len(min.Ops))
+			}
+			rt.Fatalf("%v", r.Fail)
+		}
+		finish(c, r)
 	})
 }
 
